@@ -365,6 +365,28 @@ def check(ctx):
            detail=str([[pretty(a)[:30] + "=" + str(p_) for a, p_ in cond] for _, cond in cpy]),
            stmt="copy guard")
 
+    # ---- structure can only be changed through the guarded mutators: no getter hands out
+    # the internal mutable container itself
+    leaks = []
+    n_getters = 0
+    for ci in classes + [mc]:
+        for mname, fis in sorted(ci.methods.items()):
+            for fi in fis:
+                if "property" not in fi.decorators() and "in_model_getter" not in fi.decorators():
+                    continue
+                rt_g = evaluate(repo, fi).ret()
+                n_getters += 1
+                if rt_g is not None and rt_g[0] == "a" and rt_g[1] == SELF and (
+                        rt_g[2] in containers or (ci is mc and rt_g[2] in ("_nodes", "_vars"))):
+                    leaks.append((fi, rt_g[2]))
+    ctx.ob("C15.R1", node, "property getters return immutable views or copies of the "
+                           "structural containers (inputs as tuples, mappings as "
+                           "MappingProxyType), never the internal dict / list itself",
+           not leaks, detail="; ".join(f"{fi.qualname} returns self.{f}" for fi, f in leaks[:3]),
+           node=leaks[0][0].node if leaks else None,
+           stmt="getter leaks " + ", ".join(sorted(f"{fi.name}:{f}" for fi, f in leaks)))
+    ctx.require_min("property getters examined", n_getters, 20)
+
     # ---- a FOREIGN node handed to a variable (new dist / value node) is checked for model
     # membership before the variable touches it: a rejected assignment leaves it unchanged
     n_foreign = 0
@@ -594,5 +616,6 @@ def check(ctx):
     ctx.ob("C15.R7", sm, "the model is held through a weak reference", ok)
 
     # ---- shared mechanisms: the neighbour's rules run as obligations of this property
+    ctx.include("C14", "C15.R10", only=['C14.R2'])
     ctx.include("C01", "C15.R10", only=['C01.R6'])
-    ctx.rule("R10", "shared mechanisms, run as obligations of this property: targeted updates run in topological order too (C01.R6).")
+    ctx.rule("R10", "shared mechanisms, run as obligations of this property: a transformed variable is not transformed again at the next build (C14.R2); targeted updates run in topological order too (C01.R6).")
